@@ -16,6 +16,9 @@ n = Int("n_rows")
 Y, P = Function("y_true", IntSort(), RealSort()), Function("y_pred", IntSort(), RealSort())
 GRP = Function("group_of_row", IntSort(), IntSort())
 LAM, PA = Function("lambda_of_group", IntSort(), RealSort()), Function("prob_of_group", IntSort(), RealSort())
+# positions: the moment's group index stores label LAB(p) at position p (POS is its inverse); the caller's multiplier Series stores label CLAB(p) at position p -
+# in general ANOTHER order (a reversed Series, a dict with other key order, a user-supplied grid column)
+POS, LAB, CLAB = Function("position_in_moment_index", IntSort(), IntSort()), Function("label_at_moment_position", IntSort(), IntSort()), Function("label_at_callers_position", IntSort(), IntSort())
 
 
 def clip(x, lo, hi):
@@ -74,11 +77,28 @@ class LossSignedWeights(NdContract):
         st.assume(n >= 1)
         self.idx = Abstract("group_index")
         G = Int("n_groups")
+        g0 = GRP(GI)          # facts about the index of the moment, instantiated at the group of the generic row (keeps the VCs quantifier free)
+        st.assume(0 <= POS(g0), POS(g0) < G, LAB(POS(g0)) == g0)
         st.env.update({"self": Obj("ConditionalLossMoment", {"index": self.idx, "tags": Abstract("tags"),
-                                                             "prob_attr": Nd("prob_attr", (G,), "series", "DEFAULT", cell=lambda g: PA(g), by_group=True)}),
-                       "lambda_vec": Nd("lambda_vec", (G,), "series", "USER", cell=lambda g: LAM(g), by_group=True) if self.lam_given else None})
+                                                             "prob_attr": Nd("prob_attr", (G,), "series", "DEFAULT", cell=lambda g: PA(g), by_group=True, order="moment")}),
+                       "lambda_vec": Nd("lambda_vec", (G,), "series", "USER", cell=lambda g: LAM(g), by_group=True, order="caller") if self.lam_given else None})
+
+    def positional(self, v):
+        """label-free copy of a group-indexed Series: entry p belongs to the label stored at position p of THAT Series"""
+        lab = LAB if getattr(v, "order", None) == "moment" else CLAB
+        c = v.cell
+        return Nd(f"values({v.name})", v.shape, "ndarray", "ERASED", cell=lambda p: c(lab(p)), positional=True)
+
+    def on_attr(self, eng, st, node, base, attr):
+        if is_nd(base) and getattr(base, "by_group", False) and attr == "values":
+            return self.positional(base)
+        if isinstance(base, Abstract) and base.tag == "tags" and attr == "index":
+            return Abstract("row_index")
+        return super().on_attr(eng, st, node, base, attr)
 
     def on_binop(self, eng, st, node, op, a, b):
+        if op == "Div" and is_nd(a) and is_nd(b) and getattr(a, "positional", False) and getattr(b, "positional", False):
+            return Nd("adjust", a.shape, "ndarray", "ERASED", cell=lambda p: a.cell(p) / b.cell(p), positional=True)          # element-wise BY POSITION
         if op == "Div" and is_nd(a) and is_nd(b) and getattr(a, "by_group", False) and getattr(b, "by_group", False):
             # both Series are indexed by the group values of the moment (lambda's index IS the constraint index): label alignment = group-wise
             return Nd("adjust", a.shape, "series", "DEFAULT", cell=lambda g: a.cell(g) / b.cell(g), by_group=True)
@@ -86,7 +106,19 @@ class LossSignedWeights(NdContract):
 
     def on_call(self, eng, st, node, name, recv, args, kwargs):
         if name == "pandas.Series" and args and args[0] == 1.0 and kwargs.get("index") is self.idx:
-            return Nd("ones_by_group", (Int("n_groups"),), "series", "DEFAULT", cell=lambda g: z3.RealVal(1), by_group=True)
+            return Nd("ones_by_group", (Int("n_groups"),), "series", "DEFAULT", cell=lambda g: z3.RealVal(1), by_group=True, order="moment")
+        if name in ("numpy.asarray", "numpy.array") and args and is_nd(args[0]) and getattr(args[0], "by_group", False):
+            return self.positional(args[0])
+        if name == "to_numpy" and is_nd(recv) and getattr(recv, "by_group", False):
+            return self.positional(recv)
+        if name == "reindex" and is_nd(recv) and getattr(recv, "by_group", False) and args and args[0] is self.idx:
+            return self._derive(recv, order="moment", prov="DEFAULT")          # label-aligned re-ordering into the moment's own order
+        if name == "len" and args and args[0] is self.idx:
+            return Int("n_groups")
+        if name == "get_indexer" and recv is self.idx and args and is_nd(args[0]) and getattr(args[0], "is_group_column", False):
+            return Nd("position_of_the_rows_group", (n,), "ndarray", "ERASED", cell=lambda i: POS(GRP(i)))
+        if name == "pandas.Series" and args and is_nd(args[0]) and len(args[0].shape) == 1 and isinstance(kwargs.get("index"), Abstract) and kwargs["index"].tag == "row_index":
+            return self._derive(args[0], kind="series", prov="DEFAULT")
         if name == "apply" and isinstance(recv, Abstract) and recv.tag == "tags" and kwargs.get("axis") == 1 and args and isinstance(args[0], Closure):
             clo = args[0]
             return Nd("weights", (n,), "series", "DEFAULT", cell=lambda i: eng.summarize_closure(clo, [Abstract("row", i=i)], st))
@@ -95,6 +127,8 @@ class LossSignedWeights(NdContract):
     def on_subscript(self, eng, st, node, base, index):
         if isinstance(base, Abstract) and base.tag == "row" and index == "group_id":
             return GRP(base.i)
+        if isinstance(base, Abstract) and base.tag == "tags" and index == "group_id":
+            return Nd("group_of_row", (n,), "series", "DEFAULT", cell=lambda i: GRP(i), is_group_column=True)
         if is_nd(base) and getattr(base, "by_group", False) and is_z3(index) and not is_nd(index):
             return base.cell(index)
         return super().on_subscript(eng, st, node, base, index)
